@@ -1,9 +1,9 @@
 """Texts for MANIFEST.json (kept next to the suites so they are edited together)."""
-HOOK_COMMITS = ["39c5112"]
+HOOK_COMMITS = ["39c5112", "584a771"]
 
 ENGINES = [
     {"name": "KM", "path": "/verif/kani-km + /verif/hbmodel",
-     "serves_properties": ["C01"],
+     "serves_properties": ["C01", "C02", "C03", "C04", "C05", "C07", "C08", "C09", "C10", "C12", "C17"],
      "kind_free_text": "Kani 0.68 compiles griddle (unchanged, /repo working tree) against a contract model of hashbrown's raw API; CBMC 6.11/CaDiCaL decides one-step inductive harnesses from arbitrary INV states (concrete table layouts, symbolic contents/arguments/callback decisions)"},
 ]
 
@@ -17,13 +17,53 @@ _KM_NOTE = ("Trusted: Kani's MIR->goto translation, CBMC, CaDiCaL; the hashbrown
 
 CHECKS = {
     "C01": dict(
-        text="Bounded model checking of griddle's compiled code: for each map operation and each table-pair layout class, CBMC shows for ALL keys/values/arguments that return value, len and extensional contents match the reference map and INV is preserved; covers every resize phase by construction rather than by reaching it through histories.",
+        text="Bounded model checking of griddle's compiled code: for each map operation and each table-pair layout class (unsplit / resize just started / partly moved / old table emptied), CBMC shows for ALL keys, values and arguments that the return value, len and the extensional contents (via a universally quantified witness key) equal the reference map's and that the representation invariant INV is preserved. Covers every resize phase by construction instead of reaching it through histories; zero-sized elements included.",
         design_ref="DESIGN.md §3, §5 C01", note=_KM_NOTE,
         technique="SAT-based bounded model checking (Kani/CBMC) of one-step inductive harnesses over symbolic table states"),
+    "C02": dict(
+        text="Per-call work is counted inside the harness hasher (hash computations) and the model (elements taken out of a table, table allocations, dependency-internal rehashes). Counters mode makes every size an unconstrained 64-bit variable, so the constant bounds (10 hashes, 8 moves, 1 allocation, 0 dependency rehashes) are shown for maps of any size; slots mode repeats them with real element movement.",
+        design_ref="DESIGN.md §3.3, §5 C02", note=_KM_NOTE + " Counters mode: element identity abstracted (lookups answer nondeterministically); leftovers <= 18 where a loop walks them.",
+        technique="SAT-based bounded model checking (Kani/CBMC), counters-mode model with unconstrained 64-bit sizes"),
+    "C03": dict(
+        text="Exact progress per call (L' = L - min(R, L) for every key-adding call, for any L <= 18 and any main-table size) and release of the old table as soon as it is emptied by remove / entry removal / drain_filter / clear / drain, with at most two live tables at every call boundary; decided for all contents by CBMC. The induction to 'finished within ceil(L/R) calls' is a stated paper step.",
+        design_ref="DESIGN.md §5 C03", note=_KM_NOTE,
+        technique="SAT-based bounded model checking (Kani/CBMC) of one-step inductive harnesses; counters mode for arbitrary sizes"),
+    "C04": dict(
+        text="The headroom invariant I4 (main growth_left >= L + ceil(L/R)) is shown inductive for every size-changing call with all counters unconstrained 64-bit values (insert, remove, reserve, try_reserve, shrink_to, shrink_to_fit, with_capacity, clear), together with capacity() >= len(), capacity() non-decreasing across key-adding calls and 'fresh key with capacity() > len() never allocates'. Slots mode adds the Some(empty)-leftovers and tombstone corner cases with real elements.",
+        design_ref="DESIGN.md §3.4, §5 C04", note=_KM_NOTE,
+        technique="SAT-based bounded model checking (Kani/CBMC); inductive invariant over unconstrained 64-bit counters"),
+    "C05": dict(
+        text="Unsafe preconditions of hashbrown's raw API are ghost assertions in the model (iterator over-read, stale cached group, reflect_remove after the removal / for a non-pending bucket / on a zero-sized type, foreign or non-full bucket, insert_no_grow without room, use after free via CBMC's pointer checks) and cursor agreement I2 is asserted after every call that can touch the old table, for all contents; both with and without debug assertions.",
+        design_ref="DESIGN.md §5 C05", note=_KM_NOTE + " Real hashbrown's own unsafe code is not executed by KM.",
+        technique="SAT-based bounded model checking (Kani/CBMC) with contract (ghost) assertions and CBMC pointer checks"),
+    "C07": dict(
+        text="PARTIAL: Kani has no unwinding, so a caught panic cannot be executed. Decided instead: at the instant a replace_entry_with closure runs inside a griddle frame (crash point = that instant), the map already satisfies INV minus the element in flight, for all contents and layouts; griddle has no drop guard on that path, so this is the state catch_unwind leaves. Other callbacks (Hash in carry, Eq, Clone, retain/drain_filter predicates, or_insert_with) are not yet covered; see DESIGN.md.",
+        design_ref="DESIGN.md §5 C07", note=_KM_NOTE + " No unwinding semantics: panics inside hashbrown frames, Eq/Clone/Drop panics are outside the claim.",
+        technique="SAT-based bounded model checking (Kani/CBMC); invariant asserted at callback instants"),
+    "C08": dict(
+        text="Each iterator kind is driven to exhaustion (and two steps beyond) from arbitrary INV states; exact len()/size_hint() at every step, each element exactly once (witness key), fusedness, clone independence at an enumerated clone point, keys()/values() order agreement; into_iter/drain dropped or forgotten at enumerated prefixes leave no table behind / an empty usable map. All contents symbolic.",
+        design_ref="DESIGN.md §5 C08", note=_KM_NOTE + " Step counts and clone points are enumerated per harness, <= 9 elements.",
+        technique="SAT-based bounded model checking (Kani/CBMC) with a universally quantified witness key"),
+    "C09": dict(
+        text="retain: predicate answers are a solver variable (mask over the call index, i.e. every predicate), values mutated by a symbolic constant; drain_filter: answer mask, number of next() calls and drop-vs-forget enumerated per harness (a symbolic answer makes the cached iterators' position symbolic), contents symbolic. Exactly-once predicate calls, exact partition, early drop / forget semantics, INV afterwards.",
+        design_ref="DESIGN.md §5 C09", note=_KM_NOTE,
+        technique="SAT-based bounded model checking (Kani/CBMC); predicates as answer masks over the call index"),
+    "C10": dict(
+        text="reserve / try_reserve / shrink_to / shrink_to_fit / with_capacity contracts with the argument and all table counters unconstrained usize values (counters mode), including the overflow region where try_reserve must return Err and reserve must not return; Kani reports any arithmetic overflow on the way. Slots mode repeats them at <= 16 buckets with contents.",
+        design_ref="DESIGN.md §5 C10", note=_KM_NOTE + " Allocation failure (AllocError) is outside the claim.",
+        technique="SAT-based bounded model checking (Kani/CBMC) over unconstrained 64-bit sizes"),
+    "C12": dict(
+        text="Occupied/vacant handle methods (through the guarded hooks that build the handles as entry() does — the Entry enum itself is intractable for CBMC) and the whole raw-entry API, from arbitrary INV states with symbolic keys: handle designates the element wherever stored, writes through returned references are seen by later lookups, inserting calls that start a resize return a handle to the new element, replace_entry_with(None) then insert leaves the key exactly once.",
+        design_ref="DESIGN.md §5 C12", note=_KM_NOTE + " Entry::or_insert*/or_default/insert dispatch (3-line matches) is not executed; entry()'s Occupied/Vacant decision is.",
+        technique="SAT-based bounded model checking (Kani/CBMC) of per-method harnesses"),
+    "C17": dict(
+        text="The same harnesses are decided twice, with and without -C debug-assertions; the functional postconditions fully determine results, so both passing means equal behaviour. No assertion tagged debug-only (griddle's or the dependency's, mirrored in the model) may fail in the debug build, and Kani's overflow checks (always on) show no size computation can wrap.",
+        design_ref="DESIGN.md §3.10, §5 C17", note=_KM_NOTE + " -C overflow-checks=off is not honoured by Kani; a reachable overflow is reported instead.",
+        technique="SAT-based bounded model checking (Kani/CBMC) under two build configurations"),
 }
 
 NOT_APPLICABLE = {
     "C15": "rayon work-stealing schedules: Kani/CBMC has no concurrency support and rayon-core cannot be symbolically executed; see DESIGN.md §6",
 }
-for _p in ["C02", "C03", "C04", "C05", "C06", "C07", "C08", "C09", "C10", "C11", "C12", "C13", "C14", "C16", "C17"]:
+for _p in ["C06", "C11", "C13", "C14", "C16"]:
     NOT_APPLICABLE.setdefault(_p, "check under construction in this session (harnesses not yet registered); will be claimed once its quick tier passes on the unchanged tree")
